@@ -120,6 +120,11 @@ def build(cfg):
         m.setNucleationSite(p.get("site", "bulk"), p["name"])
         if "infinite" in p:
             m.setInfinitePrecipitateDiffusivity(p["infinite"], p["name"])
+        if "strainE" in p:     # constant elastic strain energy per volume of precipitate (J/m3)
+            from kawin.precipitation import StrainEnergy
+            se_ = StrainEnergy()
+            se_.setConstantElasticEnergy(float(p["strainE"]))
+            m.setStrainEnergy(se_, p["name"])
         if "shape" in p:       # (kind, aspect ratio) -- a number, or ("linear", a0, slope per nm) for a size dependent aspect ratio
             kind, ar = p["shape"]
             if isinstance(ar, (list, tuple)):
@@ -202,6 +207,27 @@ def run(cfg):
     out.update(model=m, therm=th, obs=obs)
     it = SolverType.RK4 if cfg.get("iter", "euler") == "rk4" else SolverType.EXPLICITEULER
     try:
+        if cfg.get("prelude"):
+            # the model object is RE-USED: it is set up (and briefly solved) with another grain boundary energy first, then reset,
+            # given the configuration's own value, and run as usual -- anything remembered from the first life must not survive
+            pre = cfg["prelude"]
+            m.setGrainBoundaryEnergy(pre["gb"])
+            m.setup()
+            for p_ in range(len(m.phases)):
+                float(m.precipitateParameters[p_].nucleation.areaFactor)
+            if pre.get("span"):
+                try:
+                    m.solve(pre["span"], solverType=it, maxDtFrac=0.2)
+                except StepCap:
+                    pass
+            m.reset()
+            m.setGrainBoundaryEnergy(cfg.get("gb", 0.3))
+            pb = cfg.get("pbm")
+            if pb:
+                m.setPBMParameters(cMin=pb[0], cMax=pb[1], bins=pb[2], minBins=pb[3], maxBins=pb[4], adaptive=pb[5])
+            m.setPSDrecording(True)
+            obs.snaps = []
+            obs.pre = None
         first = True
         for ci, (span, maxfrac) in enumerate(cfg["calls"]):
             if cfg.get("retemp"):
